@@ -42,13 +42,13 @@ theorem Good.new (hT : legalThreshold T = true) (hcT : cfg.T = T) (hcL : cfg.L =
 
 theorem Good.set (hT : legalThreshold T = true) {st : OMap r × Ctx} (h : Good T D cfg st) {k : MKey}
     (hk : KeyOk T (r + 1) D k) {v : Elem} (hv : ValueOkM v) : Good T D cfg (stepSet cfg st k v) := by
-  have hs := OMap.set_spec hT h.cfgok h.inv hk hv st.2 h.ctx
+  have hs := OMap.set_spec hT h.cfgok h.inv hk hv st.2
   unfold stepSet
   by_cases hl : TLimited cfg st.1.d st.1.root k
   · rw [hs.1 hl]; exact h
   · obtain ⟨old, m', c', heq, hp⟩ := hs.2 hl
     rw [heq]
-    exact ⟨hp.inv, hp.ctx, h.cfgok.1, h.cfgok.2.1, by rw [h.cfgok.2.2]; simp only [OMap.addr, hp.rootID]⟩
+    exact ⟨hp.inv, hp.ctx h.ctx, h.cfgok.1, h.cfgok.2.1, by rw [h.cfgok.2.2]; simp only [OMap.addr, hp.rootID]⟩
 
 theorem Good.remove (hT : legalThreshold T = true) {st : OMap r × Ctx} (h : Good T D cfg st) {k : MKey}
     (hk : KeyOk T (r + 1) D k) : Good T D cfg (stepRemove cfg st k) := by
